@@ -65,7 +65,7 @@ type c33obs struct {
 	batchErr  error
 	cancelAt  int
 	ctxs      map[int]context.Context // the context each job was started with
-	mu        *sync.Mutex // only in the free-running -race pass (under vsched one thread runs at a time)
+	mu        *sync.Mutex             // only in the free-running -race pass (under vsched one thread runs at a time)
 }
 
 func (o *c33obs) tick() int { o.clock++; return o.clock }
@@ -402,57 +402,66 @@ func TestVerifC33(t *testing.T) {
 		}
 	}
 	r.Set("scenarios_enumerated", len(cfgs))
-	for i, c := range cfgs {
-		if !r.Mine(i) || r.Expired() {
-			continue
-		}
-		c := c
-		id := c.id()
-		build := func() vsched.Scenario { s, _ := c33build(c); return s }
-		if rid, rp := r.Replaying(); rp {
-			k := strings.LastIndex(rid, "#")
-			if k < 0 || rid[:k] != id {
+	// Iterative bounding: every scenario is first explored completely at bound 1,
+	// and only then at the tier's bound, so that a deadline in the deeper pass
+	// leaves an exact statement of what is covered at each bound.
+	passes := []int{bound}
+	if _, rp := r.Replaying(); !rp && bound > 1 {
+		passes = []int{1, bound}
+	}
+	for _, pass := range passes {
+		for i, c := range cfgs {
+			if !r.Mine(i) || r.Expired() {
 				continue
 			}
-			sc := build()
-			x := vsched.Run(vsched.Options{Prefix: vsched.ParseChoices(rid[k+1:])}, sc.Roots...)
-			r.Trace()
-			if f := sc.Check(x); f != nil {
-				r.Violation(rid, f.Sig, f.Detail, nil)
+			c := c
+			id := c.id()
+			build := func() vsched.Scenario { s, _ := c33build(c); return s }
+			if rid, rp := r.Replaying(); rp {
+				k := strings.LastIndex(rid, "#")
+				if k < 0 || rid[:k] != id {
+					continue
+				}
+				sc := build()
+				x := vsched.Run(vsched.Options{Prefix: vsched.ParseChoices(rid[k+1:])}, sc.Roots...)
+				r.Trace()
+				if f := sc.Check(x); f != nil {
+					r.Violation(rid, f.Sig, f.Detail, nil)
+				}
+				continue
 			}
-			continue
-		}
-		b := bound
-		if c.errKind != "" && b > 1 {
-			b = 1 // the error-kind variants differ from their plain twins only in the error value; bound 1 keeps thorough inside its budget
-		}
-		res := vsched.Explore(vsched.Config{Name: id, Bound: b, Build: build, Expired: r.Expired, MaxFound: 2, Horizon: 5000})
-		if res.EngineError != "" {
-			panic("engine error in " + id + ": " + res.EngineError)
-		}
-		r.TraceN(res.Executions)
-		r.TransitionN(res.Points)
-		r.EvalN(res.Executions)
-		r.Add("scenarios", 1)
-		if res.Capped != "" {
-			r.Cap(res.Capped)
-		} else {
-			if c.errKind == "" {
-				r.Min("preemption_bound_completed", int64(res.BoundCompleted))
+			b := pass
+			if c.errKind != "" && b > 1 {
+				continue // the error-kind variants differ from their plain twins only in the error value; they stay at bound 1 (first pass)
 			}
+			res := vsched.Explore(vsched.Config{Name: id, Bound: b, Build: build, Expired: r.Expired, MaxFound: 2, Horizon: 5000})
+			if res.EngineError != "" {
+				panic("engine error in " + id + ": " + res.EngineError)
+			}
+			r.TraceN(res.Executions)
+			r.TransitionN(res.Points)
+			r.EvalN(res.Executions)
+			if pass == passes[0] {
+				r.Add("scenarios", 1)
+			}
+			if res.Capped != "" {
+				r.Cap(res.Capped)
+			} else {
+				r.Add(fmt.Sprintf("scenarios_completed_at_bound_%d", b), 1)
+			}
+			r.Max("max_points_per_execution", int64(res.MaxPoints))
+			if len(res.Outcomes) > 1 {
+				r.Nontrivial(id)
+			}
+			for o := range res.Outcomes {
+				r.State(id + "=>" + o)
+				r.Outcome(o)
+			}
+			for _, f := range res.Found {
+				r.Violation(id+"#"+vsched.ChoicesString(f.Choices), f.Fail.Sig, f.Fail.Detail+fmt.Sprintf(" (preemptions=%d)", f.Preempt), nil)
+			}
+			r.Sample(map[string]any{"scenario": id, "bound": b, "executions": res.Executions, "distinct_outcomes": len(res.Outcomes)})
 		}
-		r.Max("max_points_per_execution", int64(res.MaxPoints))
-		if len(res.Outcomes) > 1 {
-			r.Nontrivial(id)
-		}
-		for o := range res.Outcomes {
-			r.State(id + "=>" + o)
-			r.Outcome(o)
-		}
-		for _, f := range res.Found {
-			r.Violation(id+"#"+vsched.ChoicesString(f.Choices), f.Fail.Sig, f.Fail.Detail+fmt.Sprintf(" (preemptions=%d)", f.Preempt), nil)
-		}
-		r.Sample(map[string]any{"scenario": id, "executions": res.Executions, "distinct_outcomes": len(res.Outcomes)})
 	}
 }
 
